@@ -5,6 +5,7 @@ from .. import ops, pools, proc
 from ..lit import enc, dec, canon, canon_e, h, short
 from . import common
 from .common import viol
+from ..steps import Divergent, Inconclusive
 
 ID = "C10"
 RUNS = {"quick": 1600, "thorough": 24000}
@@ -91,6 +92,16 @@ def _quiet_spec(tier):
             else:
                 for d in order:
                     opl.append({"op": "solve_fresh", "d": d, "prune": False})
+    # ... and floods of *distinct* small games (caches that evict by count, rings of slots, tables that grow)
+    for N in ((170, 680, 2700) if tier == "quick" else (90, 170, 340, 680, 1350, 2700, 5400, 10800, 21600)):
+        opl.append({"op": "restart", "entropy": N})
+        for d in order:
+            opl.append({"op": "solve_fresh", "d": d, "prune": True})
+            opl.append({"op": "solve_fresh", "d": d, "prune": False})
+        opl.append({"op": "flood", "n": N, "seed": N})
+        for d in order:
+            opl.append({"op": "solve_fresh", "d": d, "prune": True})
+            opl.append({"op": "solve_fresh", "d": d, "prune": False})
     return {"cfg": {"klass": "quiet-stretches"}, "descs": descs, "ops": opl}
 
 
@@ -146,6 +157,20 @@ def gen(rng, tier, ctx):
             if rng.random() < 0.5:
                 # also share the players / final_states list objects (as `dict(g1, rewards=...)` does)
                 descs[nd - 1]["share_fields"] = rng.sample(["players", "final_states"], rng.randint(1, 2))
+    for d_ in descs:
+        if rng.random() < 0.12:
+            # one inner list object serving two states (`row = [...]; [row, row]`, `[[...]] * 2` in an input file)
+            g_ = dec(d_["desc"])
+            try:
+                rows = [i for i, pl in enumerate(g_["players"]) if pl == "Probabilistic" and len(g_["transition_list"][i]) >= 2]
+                if len(rows) >= 2:
+                    i_, j_ = rng.sample(rows, 2)
+                    g_["transition_list"][j_] = list(g_["transition_list"][i_])
+                    d_["desc"] = enc(g_)
+                    d_["alias_equal_rows"] = True
+                    d_["tag"] = d_["tag"] + "+aliased-rows"
+            except Exception:
+                pass
     n_ops = rng.randint(3, 25 if tier == "thorough" else 14)
     opl = []
     handles = []
@@ -162,8 +187,12 @@ def gen(rng, tier, ctx):
             op = {"op": "solve", "h": rng.choice(handles)}
         elif r < 0.72:
             op = {"op": "solve_fresh", "d": rng.randrange(nd), "prune": rng.random() < 0.65}
-        elif r < 0.78:
+        elif r < 0.76:
             op = {"op": "toggle", "h": rng.choice(handles)}
+        elif r < 0.79:
+            # the caller edits its own description in place (it is the caller's data); objects built from it
+            # earlier and fresh ones now hold the same - new - description
+            op = {"op": "edit", "d": rng.randrange(nd), "seed": rng.randint(0, 2 ** 32)}
         elif r < 0.83:
             op = {"op": "aux", "h": rng.choice(handles), "what": rng.choice(["check_game", "count_transitions", "init_states"])}
         elif r < 0.93:
@@ -278,6 +307,13 @@ def _materialise(spec):
             for fld in d.get("share_fields", []):
                 if canon(obj.get(fld)) == canon(live[sw].get(fld)):
                     obj[fld] = live[sw][fld]
+        if d.get("alias_equal_rows") and isinstance(obj, dict) and isinstance(obj.get("transition_list"), list):
+            tl = obj["transition_list"]
+            for j in range(len(tl)):
+                for i in range(j):
+                    if isinstance(tl[i], list) and tl[i] is not tl[j] and canon(tl[i]) == canon(tl[j]):
+                        tl[j] = tl[i]
+                        break
         live.append(obj)
     return live
 
@@ -473,6 +509,42 @@ def execute(spec, w, ctx):
             events.append([i_op, "aux", op["what"], out["status"], out.get("etype")])
         elif kind == "quiet":
             v = do_quiet(i_op, op)
+        elif kind == "edit":
+            if op["d"] < len(live):
+                what = _edit_in_place(live[op["d"]], op.get("seed", 0))
+                events.append([i_op, "edit", op["d"], what])
+                if what:
+                    w.fired("caller-edits-its-description-in-place")
+                # the edited description (and every description sharing objects with it) is the baseline from now on
+                for k_ in range(len(live)):
+                    snaps[k_] = common.fields_canon(live[k_], F)
+                    snap_e[k_] = enc({f_: live[k_].get(f_) for f_ in F})
+        elif kind == "flood":
+            from .. import pools as _pools
+            import random as _r
+            n_ = int(op["n"])
+            seed_ = int(op.get("seed", 0))
+
+            def flood():
+                tad = proc.mod("tad")
+                rg = _r.Random(seed_)
+                done = 0
+                for k_ in range(n_):
+                    if k_ % 64 == 0 and not w.quiet_budget_left():
+                        break
+                    g_ = _pools.stopping_game(rg, 4, 9) if k_ % 3 else _pools.rand_game(rg, 3, 9)
+                    try:
+                        tad.StochasticGame(**ops.game_kwargs(g_, rg.random() < 0.5)).solve()
+                    except ValueError:
+                        pass
+                    except (Divergent, Inconclusive):
+                        w.stepclock.sweep_cap = 3000        # (a filler game that does not converge: next one)
+                    done += 1
+                return done
+            out = w.run_op(flood, {"step_cap": 10 ** 9, "sweep_cap": 3000})
+            events.append([i_op, "flood", n_, out["status"], out.get("value")])
+            if out["status"] == "ok":
+                w.fired("distinct-games-solved-in-one-process", out["value"])
         elif kind == "restart":
             w.restart(op.get("entropy", 0))
             handles.clear()
@@ -588,6 +660,37 @@ def _batch_pair(i_op, op, spec, w, live, ref, events, states, discards, note_sol
                     return viol("I10.2", i_op, "two processes calling run_games at the same time: entry %r for description %d (%s) differs from "
                                 "solving it alone: got %s, reference %s" % (name, d, spec["descs"][d].get("tag"), short(got, 400), short(want, 400)),
                                 "result-differs")
+    return None
+
+
+def _edit_in_place(g, seed):
+    """One small well-formed change made *in place* to the caller's own lists; returns a description of it."""
+    import random as _r
+    rng = _r.Random(seed)
+    try:
+        tl, n = g["transition_list"], len(g["players"])
+        kind = rng.choice(["rewire", "rewire", "reward", "reverse"])
+        if kind == "rewire":
+            cands = [(i, j) for i in range(n) for j in range(len(tl[i])) if isinstance(tl[i][j], tuple) and isinstance(tl[i][j][1], int)]
+            rng.shuffle(cands)
+            for i, j in cands[:10]:
+                a, t = tl[i][j]
+                t2 = rng.randrange(n)
+                if t2 != t:
+                    tl[i][j] = (a, t2)
+                    return "transition_list[%d][%d] = %r" % (i, j, (a, t2))
+        if kind == "reverse":
+            rows = [i for i in range(n) if len(tl[i]) >= 2]
+            if rows:
+                i = rng.choice(rows)
+                tl[i].reverse()
+                return "transition_list[%d].reverse()" % i
+        k = rng.randrange(len(g["rewards"]))
+        if isinstance(g["rewards"][k], (int, float)) and not isinstance(g["rewards"][k], bool):
+            g["rewards"][k] = g["rewards"][k] + 1
+            return "rewards[%d] += 1" % k
+    except Exception:
+        pass
     return None
 
 
